@@ -138,6 +138,19 @@ func (s *Solver) Pop() {
 	}
 }
 
+// HardReset clears the solver completely (declarations included): the next check-sat runs
+// in non-incremental mode.
+func (s *Solver) HardReset() {
+	s.send("(reset)")
+	s.defined = map[int]bool{}
+	s.declared = map[string]bool{}
+	s.log = []scopeLog{{}}
+	s.send("(set-option :produce-models true)")
+	if s.Name == "cvc5" {
+		s.send("(set-logic ALL)")
+	}
+}
+
 // Reset pops to the base scope.
 func (s *Solver) Reset() {
 	for len(s.log) > 1 {
